@@ -43,7 +43,7 @@ class C02(C01):
                             t += dt
                             ev.append((t, a, p))
                         yield T.mk_case(content, [], options=options, default_tmo=tmo_s, retries=retries, events=ev)
-        for _ in range(1000 if quick else 20000):
+        for _ in range(1000 if quick else 10000):
             retries = rng.choice([0, 1, 2, 3])
             tmo_s = rng.choice([1, 2, 5])
             tm = tmo_s * T.TICKS
@@ -70,7 +70,7 @@ class C02(C01):
                         ev = [(max(0, t0), a, stale[0] if a == 0 else rng.choice(stale)) for _ in range(k)]
                         for tail in ((), ((max(0, t0) + 1, 0, T.ack(1)),), ((2 * tm - 1, 0, T.ack(1)),)):
                             yield T.mk_case(b"abc", [], default_tmo=1, retries=retries, events=ev + list(tail), proc=proc)
-        for _ in range(300 if quick else 6000):
+        for _ in range(300 if quick else 3000):
             retries = rng.choice([0, 1, 2])
             tmo_s = rng.choice([1, 2])
             tm = tmo_s * T.TICKS
@@ -83,7 +83,7 @@ class C02(C01):
                 ev.append((t, 0 if rng.random() < 0.7 else rng.choice([1, 2, 3, 4, 5, 6]), rng.choice(T.PACKET_ALPHABET)[1]))
             yield T.mk_case(bytes(i % 251 for i in range(rng.choice([0, 512, 700]))), [], options=options,
                             default_tmo=tmo_s if not options else rng.choice([1, 2]), retries=retries, events=ev, proc=proc)
-        for _ in range(200 if quick else 3000):
+        for _ in range(200 if quick else 2000):
             retries = rng.choice([1, 2, 3])
             nb = rng.randrange(1, 5)
             n = nb * 512 - rng.choice([0, 1, 100])
